@@ -596,6 +596,21 @@ def path_conditions(mod, stmt, stop=None):
     return conds
 
 
+def quiet_conditions(mod, stmt, stop=None):
+    """path_conditions without the fall-through of guards that RAISE: `if T: raise E` before a statement does make the statement
+    conditional on `not T`, but what happens otherwise is a loud abort of the run, not a silent skip of the statement - rules
+    about "X is done whenever Y" want the silent conditions only."""
+    out = []
+    for t, pol in path_conditions(mod, stmt, stop):
+        owner = mod.parents.get(id(t))
+        while owner is not None and not isinstance(owner, ast.stmt):
+            owner = mod.parents.get(id(owner))
+        if isinstance(owner, ast.If) and not pol and owner.body and isinstance(owner.body[-1], ast.Raise) and not owner.orelse:
+            continue
+        out.append((t, pol))
+    return out
+
+
 def _sibling_guards(par, cur, conds):
     for field in ('body', 'orelse', 'finalbody'):
         lst = getattr(par, field, None)
